@@ -1294,7 +1294,7 @@ pub fn run(args: &Args) -> i32 {
 
     // (a)
     if args.wants("local") {
-        let caps: [usize; 2] = if thorough { [12, 7] } else { [8, 5] };
+        let caps: [usize; 2] = if thorough { [12, 7] } else { [10, 6] };
         let config = json!({"cap_a": caps[0], "cap_b": caps[1]});
         let soft = Arc::new(SoftLog::default());
         let cfg = ExploreCfg { time_cap: cap, ..Default::default() };
@@ -1314,7 +1314,7 @@ pub fn run(args: &Args) -> i32 {
     let remote_cfgs: Vec<(u64, usize, u64, Vec<u64>)> = if thorough {
         vec![(2, 3, 6, vec![1]), (3, 3, 6, vec![]), (2, 2, 6, vec![0, 1, 2])]
     } else {
-        vec![(2, 2, 5, vec![1]), (3, 2, 5, vec![]), (2, 3, 4, vec![]), (3, 1, 6, vec![2])]
+        vec![(2, 2, 6, vec![1]), (3, 2, 6, vec![]), (2, 3, 5, vec![]), (3, 1, 6, vec![2])]
     };
     for (limit, cells, bound, alts) in remote_cfgs {
         let name = format!("remote-L{limit}-P{cells}-S{bound}-A{}", alts.len());
